@@ -29,6 +29,16 @@ pub enum SigScope {
 pub struct Spend<'a> {
     pub tx: &'a Transaction,
     pub prevout: &'a TxOut,
+    /// index of the input being spent
+    pub idx: usize,
+    /// all previous outputs of the transaction (taproot sighash commits to all of them)
+    pub prevouts: Vec<TxOut>,
+}
+
+impl<'a> Spend<'a> {
+    pub fn single(tx: &'a Transaction, prevout: &'a TxOut) -> Self {
+        Spend { tx, prevout, idx: 0, prevouts: vec![prevout.clone()] }
+    }
 }
 
 /// parse a minimally-encoded non-negative script number of at most 5 bytes
@@ -67,11 +77,11 @@ pub fn ecdsa_msg(sp: &Spend, scope: &SigScope, ty: EcdsaSighashType) -> Option<M
     let mut cache = SighashCache::new(sp.tx);
     match scope {
         SigScope::Legacy { script_code } => cache
-            .legacy_signature_hash(0, script_code, ty.to_u32())
+            .legacy_signature_hash(sp.idx, script_code, ty.to_u32())
             .ok()
             .map(|h| Message::from_digest(h.to_byte_array())),
         SigScope::SegwitV0 { script_code, value } => cache
-            .p2wsh_signature_hash(0, script_code, *value, ty)
+            .p2wsh_signature_hash(sp.idx, script_code, *value, ty)
             .ok()
             .map(|h| Message::from_digest(h.to_byte_array())),
         _ => None,
@@ -80,15 +90,14 @@ pub fn ecdsa_msg(sp: &Spend, scope: &SigScope, ty: EcdsaSighashType) -> Option<M
 
 pub fn schnorr_msg(sp: &Spend, scope: &SigScope, ty: TapSighashType) -> Option<Message> {
     let mut cache = SighashCache::new(sp.tx);
-    let prevs = [sp.prevout.clone()];
-    let prevouts = Prevouts::All(&prevs);
+    let prevouts = Prevouts::All(&sp.prevouts);
     match scope {
         SigScope::TapLeaf { leaf_hash } => cache
-            .taproot_script_spend_signature_hash(0, &prevouts, *leaf_hash, ty)
+            .taproot_script_spend_signature_hash(sp.idx, &prevouts, *leaf_hash, ty)
             .ok()
             .map(|h| Message::from_digest(h.to_byte_array())),
         SigScope::TapKey => cache
-            .taproot_key_spend_signature_hash(0, &prevouts, ty)
+            .taproot_key_spend_signature_hash(sp.idx, &prevouts, ty)
             .ok()
             .map(|h| Message::from_digest(h.to_byte_array())),
         _ => None,
